@@ -68,9 +68,24 @@ def _judge(rep, st, verdict, rule, res, what, key_shape, witness, ctx_expected=N
                       "shape violating rule `%s` accepted: %s" % (rule, what))
     elif verdict == "REJECT" and res["status"] == "rejected" and ctx_expected:
         ctxs = [e[0] for e in res["errors"]]
-        if not any(c == ctx_expected or c.startswith(ctx_expected + "::") or (ctx_expected.startswith(c + "::") and False) for c in ctxs):
+        # a type-level fault (field rules) is reported under the type alone; a method-level one under `Type::method`
+        if not any(c == ctx_expected for c in ctxs):
             rep.violation("C05|error-context|%s|%s" % (rule, key_shape), dict(witness, impl=res),
                           "rejection of %s reported under context(s) %s, expected %s" % (what, sorted(set(ctxs)), ctx_expected))
+
+
+# valid types with methods that are lowered BEFORE the focus types `Fo` / `Op` (lowering goes out-structs, structs, opaques, enums,
+# each by name): a context left over from them must not leak into the diagnostics of the focus type
+DECOYS = ("    pub struct Aa { pub a: u8 }\n    impl Aa { pub fn aam(self) -> u8 { 0 } }\n"
+          "    #[diplomat::out]\n    pub struct Ab { pub a: u8 }\n    impl Ab { pub fn abm() -> u8 { 0 } }\n"
+          "    #[diplomat::opaque]\n    pub struct Ac(u8);\n    impl Ac { pub fn acm(&self) -> u8 { 0 } }\n")
+
+
+def _with_decoys(src):
+    head = "#[diplomat::bridge]\nmod ffi {\n"
+    if not src.startswith(head):
+        raise MachineryError("focus program does not start with the bridge header")
+    return head + DECOYS + src[len(head):]
 
 
 def single_focus(rep, hirx, wd, depth, st):
@@ -80,6 +95,7 @@ def single_focus(rep, hirx, wd, depth, st):
             if not G.applicable(pos, t):
                 continue
             src, ctx = G.focus_program(pos, t)
+            src = _with_decoys(src)
             items.append({"id": len(items), "src": src})
             meta.append((pos, t, ctx, src))
     res = _hirx(hirx, wd, "focus", items)
@@ -162,18 +178,27 @@ ELIDED_RETURNS = [
     ("&self", "Result<u8, &Op>"), ("&self", "Result<Box<Op>, &Op>"), ("&self", "Result<u8, Box<OpL>>"), ("&self", "Result<St, SB>"), ("&self", "Result<&Op, u8>"),
     ("&self", "Option<&str>"), ("&self", "Option<SB>"), ("&self", "Result<(), SB>"), ("&self", "Result<SB, ()>"),
     ("p: &Op", "&Op"), ("p: &Op", "Box<OpL>"), ("&self, p: &Op", "&Op"), ("p: &[u8]", "&[u8]"), ("p: SB", "SB"),
+    # several lifetime positions in one returned type, one of them named, another one elided (either order).  The receiver is
+    # `&self`, so Rust's elision rules resolve the elided position to the receiver's *anonymous* lifetime.  (With `&'a self`
+    # the elided position resolves to the named 'a and the lowerer accepts it: nothing is left unnamed, not judged here.)
+    ("&self, p: &'a Op", "&OpL<'a>"), ("&self, p: &'a Op", "&'a OpL<'_>"), ("&self, p: &'a Op", "&'a OpL"), ("&self, p: &'a Op", "Option<&OpL<'a>>"),
+    ("&self, p: &'a Op", "SB2<'a, '_>"), ("&self, p: &'a Op", "SB2<'_, 'a>"), ("&self, p: &'a Op", "Result<&OpL<'a>, ()>"),
+    ("&self, p: &'a Op", "Result<(), SB2<'a, '_>>"), ("&self, p: &'a Op", "Result<SB<'a>, SB>"), ("&self, p: &'a Op", "Result<SB, SB<'a>>"),
+    ("&self, p: SB<'a>", "SB2<'a, '_>"), ("&self, p: &'a Op", "&OpL<'static>"), ("&self, p: &'a Op", "SB2<'static, '_>"),
 ]
 NAMED_RETURNS = [
     ("&'a self", "&'a Op"), ("&'a self", "Option<&'a Op>"), ("&'a self", "&'a str"), ("&'a self", "&'a [u8]"), ("&'a self", "Box<OpL<'a>>"),
     ("&'a self", "SB<'a>"), ("&'a self", "Result<&'a Op, ()>"), ("p: &'a Op", "&'a Op"), ("p: &'a [u8]", "&'a [u8]"), ("p: SB<'a>", "SB<'a>"),
     ("&self", "Box<Op>"), ("&self", "u8"), ("&self, p: &Op", "Option<Box<Op>>"),
+    ("&'a self", "&'a OpL<'a>"), ("&'a self", "&'a OpL<'static>"), ("&'a self", "SB2<'a, 'a>"), ("&'a self", "SB2<'static, 'a>"), ("&'a self", "Result<SB<'a>, SB<'a>>"),
 ]
 
 
 def lifetime_rules(rep, hirx, wd, st, tier):
     items, meta = [], []
     for args, ret in ELIDED_RETURNS:
-        src = "#[diplomat::bridge]\nmod ffi {\n%s\n    impl Op { pub fn f(%s) -> %s { unimplemented!() } }\n}\n" % (G.PRELUDE, args, ret)
+        lt = "<'a>" if "'a" in args + ret else ""
+        src = "#[diplomat::bridge]\nmod ffi {\n%s\n    impl Op { pub fn f%s(%s) -> %s { unimplemented!() } }\n}\n" % (G.PRELUDE, lt, args, ret)
         items.append({"id": len(items), "src": src})
         meta.append(("REJECT", "R9 elided lifetime in return type", "fn f(%s) -> %s" % (args, ret), "elided|%s|%s" % (re.sub(r"p: ", "", args), ret), src, "Op::f"))
     for args, ret in NAMED_RETURNS:
